@@ -194,6 +194,10 @@ def _approximate_transition_and_end_point(
     while (log_pseudo_chisqrs[i-1] - log_pseudo_chisqrs[i]) > 1.0:
         i -= 1
 
+    # Always include at least the first point (e.g., when the lowest value
+    # is the very first one).
+    i = max((i, 1))
+
     max_num_RC: int = int(max(num_RCs[:i]))
 
     # Try to determine the point where the log(X²ps) vs num_RC plot
